@@ -9,6 +9,7 @@ import (
 	"fmt"
 	"go/ast"
 	"go/constant"
+	"go/types"
 	"os"
 	"os/exec"
 	"path/filepath"
@@ -299,6 +300,16 @@ func deployStageOrder(cx *CheckCtx) []string {
 		name string
 	}
 	var stages []st
+	syncFn := mostCalledInPackage(fn, 8)
+	if syncFn == nil {
+		return nil
+	}
+	// the domain field: the string field of the stage parameter that is a distinct constant at every call
+	type cand struct {
+		vals map[string]bool
+		st   []st
+	}
+	cands := map[string]*cand{}
 	for _, b := range fn.Blocks {
 		for _, ins := range b.Instrs {
 			call, ok := ins.(*ssa.Call)
@@ -306,14 +317,33 @@ func deployStageOrder(cx *CheckCtx) []string {
 				continue
 			}
 			cal := call.Common().StaticCallee()
-			if cal == nil || cal.Name() != "syncNeoFSContract" || len(call.Common().Args) < 2 {
+			if cal != syncFn || len(call.Common().Args) < 2 {
 				continue
 			}
 			t := tb.Term(tb.root, call.Common().Args[1])
-			d := tb.field(t, "domainName")
-			if s, ok := d.BytesConst(); ok {
-				stages = append(stages, st{int(call.Pos()), s})
+			stt, ok := call.Common().Args[1].Type().Underlying().(*types.Struct)
+			if !ok {
+				continue
 			}
+			for i := 0; i < stt.NumFields(); i++ {
+				if bt, ok := stt.Field(i).Type().Underlying().(*types.Basic); !ok || bt.Kind() != types.String {
+					continue
+				}
+				if s, ok := tb.field(t, stt.Field(i).Name()).BytesConst(); ok {
+					c := cands[stt.Field(i).Name()]
+					if c == nil {
+						c = &cand{vals: map[string]bool{}}
+						cands[stt.Field(i).Name()] = c
+					}
+					c.vals[s] = true
+					c.st = append(c.st, st{int(call.Pos()), s})
+				}
+			}
+		}
+	}
+	for _, c := range cands {
+		if len(c.vals) == len(c.st) && len(c.st) > len(stages) {
+			stages = c.st
 		}
 	}
 	sort.Slice(stages, func(i, j int) bool { return stages[i].pos < stages[j].pos })
@@ -325,4 +355,27 @@ func deployStageOrder(cx *CheckCtx) []string {
 		out = append(out, s.name)
 	}
 	return out
+}
+
+// mostCalledInPackage: the function of fn's own package yielding a contract
+// address that fn calls most often, if it calls it at least min times (the
+// per-contract stage of Deploy).
+func mostCalledInPackage(fn *ssa.Function, min int) *ssa.Function {
+	cnt := map[*ssa.Function]int{}
+	for _, b := range fn.Blocks {
+		for _, ins := range b.Instrs {
+			if c, ok := ins.(*ssa.Call); ok {
+				if cal := c.Common().StaticCallee(); cal != nil && cal.Pkg == fn.Pkg && cal.Pkg != nil && firstResultIs(cal, "util.Uint160") {
+					cnt[cal]++
+				}
+			}
+		}
+	}
+	var best *ssa.Function
+	for f, n := range cnt {
+		if n >= min && (best == nil || n > cnt[best] || n == cnt[best] && f.Name() < best.Name()) {
+			best = f
+		}
+	}
+	return best
 }
